@@ -164,9 +164,10 @@ def outcome_of(fn):
 
 
 class Shape:
-    def __init__(self, name, cls, model=None, cells=(), racy=False, extra=None):
+    def __init__(self, name, cls, model=None, cells=(), racy=False, extra=None, classes=None):
         self.name = name
         self.cls = cls
+        self.classes = classes or [cls]   # thread spec "cls": index into this list (default 0)
         self.model = model or {}       # field -> ("homog", initW) | ("set",) | ("map",) | ("pos", n)
         self.cells = {}                # field -> [cell objects]
         self.cell_ids = {}
@@ -300,12 +301,66 @@ def _build_shape(name):
     raise KeyError(name)
 
 
+# "twin" shapes: the SAME declaration spelling written out freshly (source text) for two differently named fields x, y of
+# one class and for field z of a second class.  Threads work on DIFFERENT declarations, so these are the conflict-free
+# scenario of C20_partial / distinct_declarations_linearizable: any deviation from the sequential result is a violation
+# (it means the library made different declarations share a Field object, or shares other scratch state).
+TWINS = {   # key -> (how, right-hand side, value kind)
+    "optional_field": ("ann", "typing.Optional[String]", "opt-str"),
+    "optional_int": ("ann", "typing.Optional[int]", "opt-int"),
+    "anyof_none": ("ann", "AnyOf[Integer, None]", "opt-int"),
+    "anyof_none_assign": ("asg", "AnyOf[Integer(minimum=0), None]", "opt-int"),
+    "anyof_three_none": ("asg", "AnyOf[Integer, String, None]", "opt-int-str"),
+    "pep604_none": ("ann", "int | None", "opt-int"),
+    "union_none": ("ann", "typing.Union[int, str, None]", "opt-int-str"),
+    "optional_array": ("ann", "typing.Optional[Array[Integer]]", "opt-arr"),
+    "list_of_optional": ("ann", "list[typing.Optional[int]]", "arr-opt"),
+    "map_of_optional": ("ann", "dict[str, typing.Optional[int]]", "map-opt"),
+    "anyof": ("asg", "AnyOf[Integer(minimum=0), String]", "int-str"),
+    "allof": ("asg", "AllOf[Integer, Number(minimum=0)]", "int"),
+    "array": ("asg", "Array[Integer(minimum=0)]", "arr"),
+    "set": ("asg", "Set[Integer(minimum=0)]", "set"),
+    "map": ("asg", "Map[Integer(minimum=0), Integer(minimum=0)]", "map"),
+    "tuple": ("asg", "Tuple[Integer(minimum=0), Integer(minimum=0)]", "tup2"),
+    "builtin_int": ("ann", "int", "int"),
+}
+# differently SPELLED optional fields side by side (the usual shape of a record class)
+OPTMIX = [("p", "ann", "typing.Optional[String]", "opt-str"), ("q", "ann", "typing.Optional[Integer]", "opt-int"),
+          ("r", "ann", "AnyOf[Integer, None]", "opt-int"), ("s", "ann", "int | None", "opt-int"),
+          ("t", "asg", "AnyOf[Integer, String, None]", "opt-int-str")]
+TWIN_MODEL = {"array": ("homog", True), "set": ("set",), "map": ("map",), "tuple": ("pos", 2)}
+
+
+def _build_twin(name):
+    from extract import field_aliases as FA
+    ns = {}
+    exec(FA.PRELUDE, ns)  # pylint: disable=exec-used
+    if name == "twin_optmix":
+        exec(FA._class_src("Tx", [(f, how, rhs) for f, how, rhs, _ in OPTMIX]), ns)  # pylint: disable=exec-used
+        exec(FA._class_src("Tz", [("z", "ann", "typing.Optional[String]")]), ns)  # pylint: disable=exec-used
+        vk = {f: k for f, _, _, k in OPTMIX}
+        vk["z"] = "opt-str"
+        return Shape(name, ns["Tx"], classes=[ns["Tx"], ns["Tz"]], extra={"vk": vk,
+                     "roster": [(0, f) for f, _, _, _ in OPTMIX] + [(1, "z")]})
+    key = name[len("twin_"):]
+    how, rhs, kind = TWINS[key]
+    exec(FA._class_src("Tx", [("x", how, rhs), ("y", how, rhs)]), ns)  # pylint: disable=exec-used
+    exec(FA._class_src("Tz", [("z", how, rhs)]), ns)  # pylint: disable=exec-used
+    model, cells = None, ()
+    if key in TWIN_MODEL:
+        model = {f: TWIN_MODEL[key] for f in "xyz"}
+        objs = {f: getattr(ns["Tx" if f != "z" else "Tz"], f) for f in "xyz"}
+        cells = [(f, list(o.items) if isinstance(o.items, (list, tuple)) else [o.items]) for f, o in objs.items()]
+    return Shape(name, ns["Tx"], model, cells, classes=[ns["Tx"], ns["Tz"]],
+                 extra={"vk": {f: kind for f in "xyz"}, "roster": [(0, "x"), (0, "y"), (1, "z")]})
+
+
 _SHAPES = {}
 
 
 def shape(name):
     if name not in _SHAPES:
-        _SHAPES[name] = _build_shape(name)
+        _SHAPES[name] = _build_twin(name) if name.startswith("twin_") else _build_shape(name)
     return _SHAPES[name]
 
 
@@ -317,6 +372,8 @@ E_SHAPES = ["shared_anyof", "shared_allof", "shared_oneof", "shared_notfield", "
             "array_dequepos", "array_tuple", "immset", "shared_immset", "anyof", "oneof", "allof", "notfield",
             "nested_struct", "scalar"]
 ALL_SHAPES = A_SHAPES + E_SHAPES + ["mapper_struct"]
+TWIN_SHAPES = ["twin_" + k for k in TWINS] + ["twin_optmix"]
+TWIN_A_SHAPES = ["twin_" + k for k in TWIN_MODEL]
 
 # ------------------------------------------------------------------ value generation (JSON descriptions)
 
@@ -344,8 +401,40 @@ def ints_in(j, acc=None):
     return acc
 
 
+def gen_twin_value(rng, kind, bad):
+    """explicit None, a valid value, or a value the earlier options reject (so that a later / the None option is consulted)"""
+    if kind == "opt-str":
+        return rng.choice([None, None, "s" + str(_BASE[0]), _int(rng, 0.0), 2.5])
+    if kind == "opt-int":
+        return rng.choice([None, None, _int(rng, bad), "s", 2.5])
+    if kind == "opt-int-str":
+        return rng.choice([None, None, _int(rng, bad), "s" + str(_BASE[0]), 2.5])
+    if kind == "opt-arr":
+        return rng.choice([None, {"l": [_int(rng, 0.0) for _ in range(rng.randint(1, 2))]}, "s", {"l": ["s"]}])
+    if kind == "arr-opt":
+        return {"l": [rng.choice([None, _int(rng, 0.0), "s"] if rng.random() < 0.3 else [None, _int(rng, 0.0)])
+                      for _ in range(rng.randint(1, 3))]}
+    if kind == "map-opt":
+        return {"m": [[k, rng.choice([None, _int(rng, 0.0)])] for k in sorted({rng.choice("pqr") for _ in range(rng.randint(1, 2))})]}
+    if kind == "int-str":
+        return rng.choice([_int(rng, bad), "s" + str(_BASE[0]), 2.5, None])
+    if kind == "int":
+        return rng.choice([_int(rng, bad), "s", None])
+    if kind == "arr":
+        return {"l": [_int(rng, bad) for _ in range(rng.randint(1, 3))]}
+    if kind == "set":
+        return {"s": sorted({_int(rng, bad) for _ in range(rng.randint(1, 3))})}
+    if kind == "map":
+        return {"m": [[k, _int(rng, bad / 2)] for k in sorted({_int(rng, bad / 2) for _ in range(rng.randint(1, 2))})]}
+    if kind == "tup2":
+        return {"t": [_int(rng, bad), _int(rng, bad)]}
+    raise KeyError(kind)
+
+
 def gen_value(rng, sname, field, bad=0.2):
     """a JSON value description for `field` of shape `sname`"""
+    if sname.startswith("twin_"):
+        return gen_twin_value(rng, shape(sname).extra["vk"][field], bad)
     if sname == "scalar":
         return _int(rng, bad) if field == "a" else rng.choice(["x", "yz", "", 5])
     if sname in ("array_int", "array_two_fields"):
@@ -402,8 +491,14 @@ def gen_value(rng, sname, field, bad=0.2):
     raise KeyError(sname)
 
 
-def fields_of(sname):
-    return sorted(shape(sname).cls.get_all_fields_by_name())
+def fields_of(sname, cls=0):
+    return sorted(shape(sname).classes[cls].get_all_fields_by_name())
+
+
+def roster(sname):
+    """the (class index, field) declarations of a shape"""
+    sh = shape(sname)
+    return sh.extra.get("roster") or [(0, f) for f in fields_of(sname)]
 
 
 # ------------------------------------------------------------------ operations
@@ -415,14 +510,15 @@ def build_ops(case):
     ops = []
     for th in case["threads"]:
         op = th["op"]
+        cls = sh.classes[th.get("cls", 0)]
         if op == "construct":
             kw = {k: mk(v) for k, v in th["kw"].items()}
-            ops.append(lambda kw=kw: sh.cls(**{k: _copy(v) for k, v in kw.items()}))
+            ops.append(lambda kw=kw, cls=cls: cls(**{k: _copy(v) for k, v in kw.items()}))
         elif op == "deserialize":
             doc = {k: plain(v) for k, v in th["kw"].items()}
-            ops.append(lambda doc=doc: Deserializer(sh.cls).deserialize(json.loads(json.dumps(doc)), keep_undefined=False))
+            ops.append(lambda doc=doc, cls=cls: Deserializer(cls).deserialize(json.loads(json.dumps(doc)), keep_undefined=False))
         elif op == "setattr":
-            inst = sh.cls()
+            inst = cls()
             f, v = th["field"], mk(th["value"])
 
             def do(inst=inst, f=f, v=v):
@@ -431,9 +527,9 @@ def build_ops(case):
             ops.append(do)
         elif op == "serialize":
             try:
-                inst = sh.cls(**{k: mk(v) for k, v in th["kw"].items()})
+                inst = cls(**{k: mk(v) for k, v in th["kw"].items()})
             except Exception:
-                inst = sh.cls()
+                inst = cls()
             ops.append(lambda inst=inst: {"ser": Serializer(inst).serialize()})
         else:
             raise ValueError(op)
@@ -467,8 +563,9 @@ def reset_caches(sh):
         if isinstance(ty, type) and issubclass(ty, Structure):
             for g in ty.get_all_fields_by_name().values():
                 walk(g, True)
-    for f in sh.cls.get_all_fields_by_name().values():
-        walk(f, True)
+    for c in sh.classes:
+        for f in c.get_all_fields_by_name().values():
+            walk(f, True)
     _m = sys.modules.get("typedpy.serialization.mappers")   # the module (the package exports an enum of that name)
     cache = getattr(_m, "aggregated_mapper_by_class", None)
     if isinstance(cache, dict):
@@ -914,9 +1011,16 @@ def describe(case, impl, model):
 # ------------------------------------------------------------------ case generation
 
 
-def gen_thread(rng, sname, stream, field=None, tid=0):
+def gen_thread(rng, sname, stream, field=None, tid=0, cls=0):
+    th = _gen_thread(rng, sname, stream, field, tid, cls)
+    if cls:
+        th["cls"] = cls
+    return th
+
+
+def _gen_thread(rng, sname, stream, field, tid, cls):
     _BASE[0] = tid
-    fs = fields_of(sname)
+    fs = fields_of(sname, cls)
     f = field or rng.choice(fs)
     if stream in ("A", "E"):
         op = rng.choice(["setattr", "construct"])
@@ -925,9 +1029,10 @@ def gen_thread(rng, sname, stream, field=None, tid=0):
     if op == "setattr":
         return {"op": op, "field": f, "value": gen_value(rng, sname, f)}
     if op == "serialize":
-        return {"op": op, "kw": {g: gen_value(rng, sname, g, bad=0.0) for g in fs if g == f or rng.random() < 0.5}}
-    if stream == "A":
-        return {"op": op, "kw": {f: gen_value(rng, sname, f)}}
+        return {"op": op, "kw": {g: gen_value(rng, sname, g, bad=0.0) for g in fs
+                                 if g == f or (rng.random() < 0.5 and not sname.startswith("twin_"))}}
+    if stream == "A" or sname.startswith("twin_"):
+        return {"op": op, "kw": {f: gen_value(rng, sname, f)}}     # one declaration per thread
     return {"op": op, "kw": {g: gen_value(rng, sname, g) for g in fs if g == f or rng.random() < 0.5}}
 
 
@@ -996,7 +1101,7 @@ def gen_cases(rng, tier, scale=1.0):
                                   {"op": "setattr", "field": fl[1], "value": v1}]})
     for sname in A_SHAPES:
         for _ in range(reps_a):
-            add("A", sname, 2, max_pre=max_pre, cap=150 if quick else 1000)
+            add("A", sname, 2, max_pre=max_pre, cap=120 if quick else 1000)
         if sname in ("array_int", "shared_set", "map_int") or not quick:
             add("A", sname, 3, max_pre=2, cap=120 if quick else 600)
     for sname, v0, v1 in CANONICAL_E:
@@ -1009,6 +1114,43 @@ def gen_cases(rng, tier, scale=1.0):
         for _ in range(reps_e):
             flat = sname in ("anyof", "oneof", "allof", "notfield") or sname.startswith("shared_")
             add("E", sname, 2, max_pre=max_pre, cap=100 if quick else 500, **({"yield": "sitelines"} if flat else {}))
+    # twin declarations: every thread on a DIFFERENT declaration (other field / other class) of the same spelling
+    def add_twin(stream, sname, n, directed=None, **kw):
+        decls = roster(sname)
+        picks = rng.sample(decls, min(n, len(decls)))
+        ths = []
+        for i, (ci, f) in enumerate(picks):
+            th = gen_thread(rng, sname, stream, f, i, ci)
+            if directed is not None and th["op"] in ("setattr", "construct"):
+                _BASE[0] = i
+                v = directed[i % len(directed)]
+                v = gen_value(rng, sname, f) if v == "any" else v
+                if th["op"] == "setattr":
+                    th["value"] = v
+                else:
+                    th["kw"] = {f: v}
+            ths.append(th)
+        c = {"stream": stream, "shape": sname, "threads": ths, "sseed": rng.randrange(1 << 30)}
+        c.update(kw)
+        cases.append(c)
+
+    for sname in TWIN_SHAPES:
+        flat = sname not in ("twin_list_of_optional", "twin_map_of_optional", "twin_optional_array")
+        ykw = {"yield": "sitelines"} if flat else {}
+        vk = set(shape(sname).extra["vk"].values())
+        if any(k.startswith("opt-") for k in vk):
+            # directed: one thread passes an explicit None, the other None / a value the earlier options reject
+            add_twin("E", sname, 2, directed=[None, None], max_pre=2, cap=60 if quick else 250, **ykw)
+            add_twin("E", sname, 2, directed=[None, 2.5], max_pre=2, cap=60 if quick else 250, **ykw)
+        for _ in range(max(1, int((1 if quick else 2) * scale))):
+            add_twin("E", sname, 2, max_pre=max_pre, cap=60 if quick else 250, **ykw)
+        if not quick and any(k.startswith("opt-") for k in vk):
+            add_twin("E", sname, 3, max_pre=2, cap=200, **ykw)
+    for sname in TWIN_A_SHAPES:
+        for _ in range(max(1, int((1 if quick else 2) * scale))):
+            add_twin("A", sname, 2, max_pre=max_pre, cap=100 if quick else 400)
+    for sname in (rng.sample(TWIN_SHAPES, 4) if quick else TWIN_SHAPES):
+        add_twin("B", sname, 2, max_pre=max_pre, nsched=20 if quick else 40)
     # fixed operation mixes (values still random): cold-cache serialization races, scalar assignment, wrappers
     for sname, ops in CANONICAL_B:
         ths = []
@@ -1020,9 +1162,9 @@ def gen_cases(rng, tier, scale=1.0):
             else:
                 ths.append({"op": op, "kw": {g: gen_value(rng, sname, g, bad=0.0 if op == "serialize" else 0.1) for g in fs}})
         cases.append({"stream": "B", "shape": sname, "threads": ths, "sseed": rng.randrange(1 << 30),
-                      "max_pre": max_pre, "nsched": 40 if quick else 200})
+                      "max_pre": max_pre, "nsched": 40 if quick else 150})
     reps_b = max(1, int((1 if quick else 4) * scale))
     for sname in ALL_SHAPES:
         for _ in range(reps_b):
-            add("B", sname, 3 if rng.random() < 0.2 else 2, max_pre=max_pre, nsched=25 if quick else 80)
+            add("B", sname, 3 if rng.random() < 0.2 else 2, max_pre=max_pre, nsched=20 if quick else 60)
     return cases
